@@ -2,7 +2,7 @@ SPECIFICATION Spec
 CONSTANTS
   Thorough = FALSE
   Mut = "none"
-  Dev_h12 = TRUE
+  Dev_h12 = FALSE
   Dev_h13 = TRUE
   Dev_ownerAbsent = TRUE
   Emit = TRUE
